@@ -1,0 +1,85 @@
+/**
+ * @file once.h
+ * @brief One-time initialisation that is safe under concurrent first use
+ *
+ * The lazily initialised global tables (CPU features, SIMD dispatch table,
+ * CRC32 tables) can be reached for the first time by several threads at once.
+ * Exactly one thread runs the initialiser; the others wait until its writes
+ * have been published (release/acquire), so nobody reads a half-built table.
+ *
+ * Usage:
+ *   static carquet_once_t once = CARQUET_ONCE_INIT;
+ *   if (!carquet_once_done(&once)) {          // fast path: one acquire load
+ *       if (carquet_once_begin(&once)) {      // 1 = this thread initialises
+ *           ... build tables ...
+ *           carquet_once_end(&once);
+ *       }                                     // 0 = someone else finished it
+ *   }
+ */
+
+#ifndef CARQUET_CORE_ONCE_H
+#define CARQUET_CORE_ONCE_H
+
+#if defined(_MSC_VER) && !defined(__clang__)
+#include <intrin.h>
+#endif
+
+typedef struct carquet_once {
+    volatile long state;   /* 0 = not started, 1 = running, 2 = done */
+} carquet_once_t;
+
+#define CARQUET_ONCE_INIT { 0 }
+
+#if defined(__GNUC__) || defined(__clang__)
+
+static inline int carquet_once_done(carquet_once_t* once) {
+    return __atomic_load_n(&once->state, __ATOMIC_ACQUIRE) == 2;
+}
+
+static inline int carquet_once_begin(carquet_once_t* once) {
+    long expected = 0;
+    if (__atomic_compare_exchange_n(&once->state, &expected, 1, 0,
+                                    __ATOMIC_ACQ_REL, __ATOMIC_ACQUIRE)) {
+        return 1;
+    }
+    while (__atomic_load_n(&once->state, __ATOMIC_ACQUIRE) != 2) {
+        /* initialisers are short (table fills); spin */
+    }
+    return 0;
+}
+
+static inline void carquet_once_end(carquet_once_t* once) {
+    __atomic_store_n(&once->state, 2, __ATOMIC_RELEASE);
+}
+
+#elif defined(_MSC_VER)
+
+static inline int carquet_once_done(carquet_once_t* once) {
+    return _InterlockedCompareExchange(&once->state, 2, 2) == 2;
+}
+
+static inline int carquet_once_begin(carquet_once_t* once) {
+    if (_InterlockedCompareExchange(&once->state, 1, 0) == 0) {
+        return 1;
+    }
+    while (_InterlockedCompareExchange(&once->state, 2, 2) != 2) {
+    }
+    return 0;
+}
+
+static inline void carquet_once_end(carquet_once_t* once) {
+    _InterlockedExchange(&once->state, 2);
+}
+
+#else /* no atomics available: single-threaded fallback */
+
+static inline int carquet_once_done(carquet_once_t* once) { return once->state == 2; }
+static inline int carquet_once_begin(carquet_once_t* once) {
+    if (once->state == 0) { once->state = 1; return 1; }
+    return 0;
+}
+static inline void carquet_once_end(carquet_once_t* once) { once->state = 2; }
+
+#endif
+
+#endif /* CARQUET_CORE_ONCE_H */
